@@ -261,6 +261,41 @@ func runC11(c *core.Ctx, o Options) {
 						break
 					}
 				}
+				// a second attempt on interprocedural paths: the site may sit in a helper cut out of its only caller (the
+				// facts it needs were established there), or use what a helper of this function returned
+				if failed != "" || nPaths == 0 {
+					root, _ := an.LogicalOwner(fn)
+					xp, over := an.EnumPathsX(root, 20000)
+					xFailed, nx := "", 0
+					for _, p := range xp {
+						if over || p.Seq == nil || !p.Passes(in) {
+							continue
+						}
+						nx++
+						pr := an.NewProver(root, p, in, append(append([]an.Fact(nil), inv...), precondFacts(root)...))
+						for _, g := range goals {
+							if ok, _ := pr.Prove(g.mk(pr)); !ok {
+								xFailed = g.what
+								break
+							}
+						}
+						if xFailed != "" {
+							break
+						}
+					}
+					// every path through the site must have been an interprocedural one (a path without helpers was already tried)
+					plain := 0
+					for _, p := range xp {
+						if p.Seq == nil && p.Passes(in) {
+							plain++
+						}
+					}
+					if !over && nx > 0 && xFailed == "" && plain == 0 {
+						nLin++
+						ob.Ok("linear engine: all three bounds follow from the facts on each of %d interprocedural path(s) of %s", nx, an.NameOf(root))
+						return
+					}
+				}
 				switch {
 				case failed == "" && nPaths > 0:
 					nLin++
